@@ -476,13 +476,25 @@ func buildAssignments(files []parsedFile, cfg *Config, preserved *preservationSe
 	// by, or collide with, a renamed symbol.
 	taken := sessionSymbolNames(files)
 	next := 0
+	// A name defined more than once at top level - redefined later in a file,
+	// or defined by two files of the session - is ONE binding at run time: a
+	// call resolves to whichever definition was evaluated last.  Every such
+	// definition gets the same generated name, or the calls made between two
+	// definitions (and from a file that saw the other one) miss it.
+	globalNames := make(map[string]string)
 	for _, record := range records {
-		var newName string
-		for {
-			next++
-			newName = fmt.Sprintf("x%d", next)
-			if !taken[newName] {
-				break
+		gkey := globalDefinitionKey(record.sym)
+		newName, shared := globalNames[gkey]
+		if gkey == "" || !shared {
+			for {
+				next++
+				newName = fmt.Sprintf("x%d", next)
+				if !taken[newName] {
+					break
+				}
+			}
+			if gkey != "" {
+				globalNames[gkey] = newName
 			}
 		}
 		assignments[record.sym] = newName
@@ -500,7 +512,9 @@ func buildAssignments(files []parsedFile, cfg *Config, preserved *preservationSe
 		}
 		entries = append(entries, entry)
 		minToOrig[newName] = record.sym.Name
-		origToMin[record.sym.Name] = append(origToMin[record.sym.Name], newName)
+		if !shared || gkey == "" {
+			origToMin[record.sym.Name] = append(origToMin[record.sym.Name], newName)
+		}
 	}
 
 	for name := range origToMin {
@@ -512,6 +526,18 @@ func buildAssignments(files []parsedFile, cfg *Config, preserved *preservationSe
 		MinifiedToOriginal: minToOrig,
 		OriginalToMinified: origToMin,
 	}
+}
+
+// globalDefinitionKey identifies the run-time binding a top-level function or
+// type definition creates (package and name); "" for every other symbol.
+func globalDefinitionKey(sym *analysis.Symbol) string {
+	if sym == nil || sym.Scope == nil || sym.Scope.Kind != analysis.ScopeGlobal {
+		return ""
+	}
+	if sym.Kind != analysis.SymFunction && sym.Kind != analysis.SymType {
+		return ""
+	}
+	return sym.Package + "/" + sym.Name
 }
 
 // sessionSymbolNames returns every symbol spelling that occurs anywhere in the
